@@ -193,11 +193,40 @@ def targeted_cases():
                                 yield {'src': src, 'path': probe.child_path(h), 'field': fl, 'i': i, 'j': j, 'opts': dict(opts)}
 
 
+TARGETED_SEQ_PROGS = ['del (a), (b), (c)\n', 'x = (a), (b), (c)\n', 'import a, b.c as d, e\n', 'from m import (a, b as c, d)\n', 'def g():\n    global a, b, c\n', 'with (a), (b) as (c), (d): pass\n',
+                      '(a) = (b) = (c) = d\n', 'x = a[(i), (j), (k)]\n', '@(d1)\n@d2(x)\n@d3\ndef f(): pass\n', 'class K((A), (B), k=(1), j=(2)): pass\n', 'f((a), *(b), k=(1), **(c))\n',
+                      'def f(*args, a=1, b=2): pass\n', 'def f(a, *, b=1, c=2): pass\n', 'def f(a, /, b=(1), *c, d, e=(2), **g): pass\n', 'lambda a, b=(1), *c, d=(2), **e: 0\n',
+                      'x = [i for i in (j) if (k) if (l) for m in (n) if (o)]\n', 'def f[T, *U, **V](): pass\n', 'x = {**(a), (b): (c), **(d)}\n', 'match v:\n  case C((a), (b), k=(c), j=(d)): pass\n  case {1: (a), 2: (b), **r}: pass\n',
+                      'if a:\n    del (a), (b)\nelse:\n    del c, (d)\n', 'for i in (j), (k), (l): pass\n', 'return_ = (a), (b)\n']
+
+
+def targeted_seq_cases():
+    """every (start, stop) of every expression-level list field (and merged virtual field) of programs whose elements are parenthesized / of every parameter kind"""
+    import fst
+    virt = {ast.arguments: '_all', ast.Call: '_args', ast.ClassDef: '_bases', ast.Dict: '_all', ast.MatchMapping: '_all', ast.Compare: '_all', ast.MatchClass: '_attrs'}
+    for src in TARGETED_SEQ_PROGS:
+        probe = fst.FST(src, 'exec')
+        for h in probe.walk(True):
+            fields = [fl for fl in h.a._fields if isinstance(getattr(h.a, fl, None), list) and getattr(h.a, fl) and isinstance(getattr(h.a, fl)[0], ast.AST) and fl not in ('body', 'orelse', 'finalbody', 'handlers', 'cases', 'type_ignores', 'ops',
+                                                                                                                                'comparators', 'keys', 'values', 'kwd_attrs', 'kwd_patterns', 'defaults', 'kw_defaults',
+                                                                                                                                'posonlyargs', 'kwonlyargs') or (fl == 'values' and isinstance(h.a, ast.BoolOp))]
+            if type(h.a) in virt:
+                fields = [fl for fl in fields if fl not in ('args', 'keywords', 'bases', 'patterns')] + [virt[type(h.a)]]
+            for fl in fields:
+                try:
+                    n = len(getattr(h, fl))
+                except Exception:
+                    continue
+                for i in range(n):
+                    for j in range(i + 1, n + 1):
+                        yield {'src': src, 'path': probe.child_path(h), 'field': fl, 'i': i, 'j': j, 'opts': {}}
+
+
 def stage_oracle(ctx: Ctx, progs, tracer):
     import fst
     rng = ctx.rng
     refusals = collections.Counter()
-    forced = list(targeted_cases())
+    forced = list(targeted_cases()) + list(targeted_seq_cases())
     for it in range(len(forced) + ctx.scale(500, 9000)):
         fc = forced[it] if it < len(forced) else None
         src = fc['src'] if fc else rng.choice(progs)
